@@ -21,6 +21,7 @@ from pathlib import Path
 
 import lib
 from translate import sites as tr_sites
+from translate import state as tr_state
 
 PROP = "C10"
 CORPUS = Path(__file__).resolve().parent / "corpus" / "C10.json"
@@ -31,7 +32,7 @@ MODEL_HEADER = (
 
 
 def gen_files():
-    return {"Sites.v": tr_sites.translate(str(lib.REPO))}
+    return {"Sites.v": tr_sites.translate(str(lib.REPO)), "State.v": tr_state.translate(str(lib.REPO))}
 
 
 # ---------------------------------------------------------------------------
@@ -39,16 +40,19 @@ def gen_files():
 
 def configs(tier):
     cs = [
+        ("alone", 0, 0, False, "isolated"),      # the reference: every program in a forked child, nothing before it
         ("seed0", 0, 0, False, "plain"),
         ("seed1", 1, 0, False, "plain"),
         ("seed2+alloc", 2, 13, False, "plain"),
-        ("seed3+alloc", 3, 101, False, "plain"),
         ("repeat-shared", 0, 0, True, "twice"),
         ("history-shuffled", 5, 7, True, "shuffled"),
         ("history-reversed", 0, 29, True, "reversed"),
+        ("related-shared", 0, 0, True, "related"),    # P right after its related variant H, one Checker
     ]
     if tier == "thorough":
         cs += [
+            ("seed3+alloc", 3, 101, False, "plain"),
+            ("related-fresh", 6, 0, False, "related"),    # P after its related variant, fresh Checker per check (process-global state)
             ("seed4", 4, 0, False, "plain"),
             ("seed7+alloc", 7, 211, False, "plain"),
             ("seed11", 11, 3, False, "plain"),
@@ -58,8 +62,10 @@ def configs(tier):
 
 
 def plan_for(kind, names, rng_seed):
-    if kind == "plain":
+    if kind in ("plain", "isolated"):
         return list(names)
+    if kind == "related":
+        return [n for name in names for n in ("rel:" + name, name)]
     if kind == "twice":
         return [n for name in names for n in (name, name)]
     if kind == "reversed":
@@ -82,9 +88,9 @@ LIBS = {
 }
 
 
-def run_worker(programs, plan, hashseed, perturb, shared, unit_cases=None, timeout=1500):
+def run_worker(programs, plan, hashseed, perturb, shared, unit_cases=None, timeout=1500, isolate=False):
     req = {"programs": programs, "plan": plan, "perturb": perturb, "shared_checker": shared, "unit_cases": unit_cases or [],
-           "libs": LIBS}
+           "libs": LIBS, "isolate": isolate}
     return lib.run_impl_script("c10_worker.py", req, timeout=timeout, extra_env={"PYTHONHASHSEED": str(hashseed)})
 
 
@@ -181,36 +187,71 @@ def run(tier: str, replay: str | None = None):
             programs["replay"] = inp["source"]
             feats["replay"] = ["replay"]
         unit_cases = [inp["unit_case"]] if "unit_case" in inp else []
+        if inp.get("history") is not None and inp.get("config"):
+            c = inp["config"]
+            explicit_plan = []
+            for i, h in enumerate(inp["history"]):
+                if h.startswith("lib:"):
+                    explicit_plan.append(h)
+                else:
+                    programs[f"rel:h{i}"] = h   # "rel:" = history, not compared
+                    explicit_plan.append(f"rel:h{i}")
+            explicit_plan.append("replay")
+            cfgs = [cfgs[0], (c["name"], c["hashseed"], c["perturb"], c["shared"], "explicit")]
     else:
         import gen_c10
 
         for i, c in enumerate(json.loads(CORPUS.read_text())["programs"]):
             programs[f"corpus{i}"] = c["source"]
             feats[f"corpus{i}"] = ["corpus:" + c["name"]]
-        n_gen = 36 if tier == "quick" else 300
+        n_gen = 26 if tier == "quick" else 180
         for i in range(n_gen):
             src, fs = gen_c10.gen_program(rng)
             programs[f"gen{i}"] = src
             feats[f"gen{i}"] = fs
         unit_cases = gen_unit_cases(rng, 150 if tier == "quick" else 1500)
-    names = list(programs)
+    names = [n for n in programs if not n.startswith("rel:")]
+    # related variants: same names, other types / values (history for the "related" configurations)
+    import gen_c10 as _g
+
+    rel_rng = random.Random(lib.seed() * 7907 + 3)
+    related = {"rel:" + n: _g.related_variant(programs[n], rel_rng) for n in names}
+    if replay and (json.loads(Path(replay).read_text()).get("input") or {}).get("related_history"):
+        related["rel:replay"] = json.loads(Path(replay).read_text())["input"]["related_history"]
+    all_programs = dict(related)
+    all_programs.update(programs)
 
     # 3. implementation under every configuration (fresh process each)
     def job(cfg):
         cname, hs, perturb, shared, kind = cfg
-        plan = plan_for(kind, names, lib.seed())
-        out = run_worker(programs, plan, hs, perturb, shared, unit_cases if kind == "plain" else None,
-                         timeout=600 if tier == "quick" else 2400)
+        plan = explicit_plan if kind == "explicit" else plan_for(kind, names, lib.seed())
+        out = run_worker(all_programs, plan, hs, perturb, shared, unit_cases if kind == "plain" else None,
+                         timeout=600 if tier == "quick" else 2400, isolate=(kind == "isolated"))
         return cname, plan, out
 
     with cf.ThreadPoolExecutor(max_workers=6) as ex:
         results = list(ex.map(job, cfgs))
-    # runs of library modules are not compared (they are history, not subjects)
+    # runs of library modules and of related variants are not compared (they are history, not subjects)
+    def subject(p):
+        return not p.startswith(("lib:", "rel:"))
+
+    raw_plans = {cname: plan for cname, plan, out in results}
+    cfg_by_name = {c[0]: c for c in cfgs}
     results = [
-        (cname, [p for p in plan if not p.startswith("lib:")],
-         dict(out, runs=[r for p, r in zip(plan, out["runs"]) if not p.startswith("lib:")]))
+        (cname, [p for p in plan if subject(p)], dict(out, runs=[r for p, r in zip(plan, out["runs"]) if subject(p)]))
         for cname, plan, out in results
     ]
+
+    def history_of(cname, pname, occ):
+        """sources checked in that process before the occ-th check of pname"""
+        hist, seen = [], 0
+        for item in raw_plans[cname]:
+            if item == pname:
+                if seen == occ:
+                    break
+                seen += 1
+            hist.append(item if item.startswith("lib:") else all_programs[item])
+        return hist
 
     base_name, base_plan, base_out = results[0]
     base = dict(zip(base_plan, base_out["runs"]))
@@ -251,7 +292,9 @@ def run(tier: str, replay: str | None = None):
         reported.add(pname)
         rep.violation({
             "kind": "failing-input",
-            "input": {"source": programs[pname], "features": feats[pname]},
+            "input": {"source": programs[pname], "features": feats.get(pname, []),
+                      "config": {"name": cname, "hashseed": cfg_by_name[cname][1], "perturb": cfg_by_name[cname][2], "shared": cfg_by_name[cname][3]},
+                      "history": history_of(cname, pname, occ)},
             "observed": {"config": cname, "occurrence_in_process": occ, "difference": diff},
             "expected": {"config": base_name, "rule": "identical rendered diagnostics in every configuration"},
             "configs": [c[0] for c in cfgs],
